@@ -17,7 +17,7 @@ import (
 func init() {
 	mon.Register(&mon.Prop{
 		ID: "C08", Race: true, Level: "exploration",
-		Rule: "counting clause: coding sequences of length 0..10^5 in any case, lengths not divisible by 3, non-ACGT letters, on deep copies of all 25 tables; history clause: every operation sequence up to length 4 over {request default table, re-weight, add, compromise, serialise/parse} on two table ids with two coding sequences (complete DFS) plus random histories of length 5..8 on three ids, every live table read back after every step and compared with a value-semantics model (and, on mismatch, with the defect model of the listed known finding); concurrent clause: 16 goroutines re-weighting tables with pairwise different ids per round under the race detector; non-trivial = history with >= 2 steps, or a coding sequence of >= 2 codons; distinct by hash of the history / sequence",
+		Rule: "cold start: in every child process the first use of the package is one goroutine per default table requesting it at the same moment; counting clause: coding sequences of length 0..10^5 in any case, lengths not divisible by 3, non-ACGT letters, on deep copies of all 25 tables; history clause: every operation sequence up to length 4 over {request default table, re-weight, add, compromise, serialise/parse} on two table ids with two coding sequences (complete DFS) plus random histories of length 5..8 on three ids, every live table read back after every step and compared with a value-semantics model (and, on mismatch, with the defect model of the listed known finding); concurrent clause: 16 goroutines re-weighting tables with pairwise different ids per round under the race detector; non-trivial = history with >= 2 steps, or a coding sequence of >= 2 codons; distinct by hash of the history / sequence",
 		Assumptions: []string{
 			"value-semantics model: get, parse(serialise), add, compromise create independent tables; re-weight returns a handle on the receiver's table with weights = in-frame case-insensitive counts; the receiver handle itself is not inspected again (the method documents in-place mutation)",
 			"compromise values are C18's subject: here a compromise result is only required to keep its creation-time value and the genetic code",
@@ -327,7 +327,62 @@ func runHistory(w *mon.W, id string, pristine map[int]plainTable, ids []int, ops
 	}
 }
 
+// c08ColdStart is the first use of package codon in this child process: every default table is requested at the
+// same moment from a goroutine of its own (whatever the package builds lazily is built under contention, and
+// under the race detector) and must carry the NCBI assignment with every weight 1.
+func c08ColdStart(w *mon.W) {
+	id := fmt.Sprintf("cold-start-%d", w.Shard)
+	w.Begin(id, "one goroutine per default table requests it as the first use of the package in this process")
+	got := make([]codon.Table, len(tableIDs))
+	panics := make([]string, len(tableIDs))
+	var gate, wg sync.WaitGroup
+	gate.Add(1)
+	for i, tid := range tableIDs {
+		i, tid := i, tid
+		wg.Add(1)
+		go func() {
+			defer wg.Done()
+			gate.Wait()
+			panics[i] = mon.Try(func() { got[i] = codon.GetCodonTable(tid) })
+		}()
+	}
+	gate.Done()
+	wg.Wait()
+	for i, g := range oracle.GeneticCodes {
+		w.Eval(true, mon.Hash64(id, fmt.Sprint(g.ID)))
+		w.Add("default_tables_requested_concurrently_at_process_start", 1)
+		if panics[i] != "" {
+			w.Violation(id, fmt.Sprintf("GetCodonTable(%d) requested concurrently with the other tables at process start: %s", g.ID, panics[i]), nil)
+			continue
+		}
+		snap := snapshot(got[i])
+		bad := ""
+		syn := g.Synonyms()
+		if len(snap.AA) != len(syn) {
+			bad = fmt.Sprintf("%d amino acids, NCBI has %d", len(snap.AA), len(syn))
+		}
+		for aa, cs := range syn {
+			if len(snap.AA[aa]) != len(cs) {
+				bad = fmt.Sprintf("amino acid %s has codons %v, NCBI assigns %v", aa, snap.AA[aa], cs)
+			}
+			for _, c := range cs {
+				if snap.AA[aa][c] != 1 {
+					bad = fmt.Sprintf("codon %s of %s has weight %d in a fresh default table (1 expected)", c, aa, snap.AA[aa][c])
+				}
+			}
+		}
+		if strings.Join(sortedCopy(snap.Starts), ",") != strings.Join(sortedCopy(g.Starts), ",") || strings.Join(sortedCopy(snap.Stops), ",") != strings.Join(sortedCopy(g.Stops), ",") {
+			bad = fmt.Sprintf("start/stop codons %v / %v, NCBI lists %v / %v", snap.Starts, snap.Stops, g.Starts, g.Stops)
+		}
+		if bad != "" {
+			w.Violation(id, fmt.Sprintf("default table %d requested concurrently with the other tables at process start: %s", g.ID, bad), nil)
+		}
+	}
+	w.End()
+}
+
 func runC08(w *mon.W) {
+	c08ColdStart(w)
 	pristine := c8Pristine()
 	idx := 0
 	// self-check of the pristine model against deep copies
